@@ -315,3 +315,102 @@ func vpItoa(n int) string {
 	}
 	return string(b[i:])
 }
+
+// VPH_pipelineRequests (C01, C03): what the scan feeds through the real
+// AddRoot / RequestObject / Close reaches git's stdin exactly: one line per
+// object id, in order, nothing else; and ResolveObject returns exactly the
+// object git names.
+func VPH_pipelineRequests() {
+	if vp_Native() {
+		vp_Reach("end")
+		return
+	}
+	st := vpCaptureStages()
+	ctx := context.Background()
+	repo := &Repository{gitDir: ".", gitBin: "git"}
+	k := vp_Choice("oids", 4)
+	var want strings.Builder
+	which := vp_Choice("pipeline", 2)
+	var feed func(OID) error
+	var closeFn func()
+	var stage pipe.StageFunc
+	if which == 0 {
+		it, err := repo.NewObjectIter(ctx)
+		vp_Assert(err == nil && it != nil, "NewObjectIter")
+		if it == nil {
+			return
+		}
+		feed, closeFn = it.AddRoot, it.Close
+	} else {
+		it, err := repo.NewBatchObjectIter(ctx)
+		vp_Assert(err == nil && it != nil, "NewBatchObjectIter")
+		if it == nil {
+			return
+		}
+		feed, closeFn = it.RequestObject, it.Close
+	}
+	stage = st.funcs["request-objects"]
+	vp_Assert(stage != nil, "the stage that writes git's stdin exists")
+	if stage == nil {
+		return
+	}
+	for i := 0; i < k; i++ {
+		id := vpHexID(byte(0x60 + i))
+		vp_Assert(feed(vpOIDOf(id)) == nil, "feeding an object id succeeds")
+		want.WriteString(id + "\n")
+	}
+	closeFn()
+	var out bytes.Buffer
+	var serr error
+	panicked := vp_Catch(func() { serr = stage(ctx, pipe.Env{}, nil, &out) })
+	vp_Assert(!panicked && serr == nil, "the writer stage ends cleanly when the input is closed")
+	vp_Assert(out.String() == want.String(), "git's stdin receives exactly the fed object ids, one per line, in order")
+	vp_Reach("end")
+}
+
+func VPH_resolveObject() {
+	if vp_Native() {
+		vp_Reach("end")
+		return
+	}
+	id := vpHexID(0x71)
+	outcome := vp_Choice("outcome", 5)
+	var argv []string
+	vp_Stub("(*github.com/github/git-sizer/git.Repository).GitCommand", func(r *Repository, args ...string) *exec.Cmd {
+		argv = args
+		return &exec.Cmd{}
+	})
+	vp_Stub("(*os/exec.Cmd).Output", func(c *exec.Cmd) ([]byte, error) {
+		switch outcome {
+		case 0:
+			return []byte(id + "\n"), nil
+		case 1:
+			return []byte(id), nil
+		case 2:
+			return nil, &exec.ExitError{}
+		case 3:
+			return []byte("not-an-object-id\n"), nil
+		}
+		return []byte(""), nil
+	})
+	repo := &Repository{gitDir: ".", gitBin: "git"}
+	name := "main~1:" + vp_Str("n", 2)
+	oid, err := repo.ResolveObject(name)
+	vp_Assert(len(argv) >= 2 && argv[0] == "rev-parse" && argv[len(argv)-1] == name, "the ROOT is resolved by git rev-parse, passed verbatim as the last argument")
+	verify, eoo := false, false
+	for _, a := range argv {
+		if a == "--verify" {
+			verify = true
+		}
+		if a == "--end-of-options" {
+			eoo = true
+		}
+	}
+	vp_Assert(verify && eoo, "exactly one object is demanded (--verify) and the name cannot be taken for an option (--end-of-options)")
+	if outcome <= 1 {
+		vp_Assert(err == nil && oid == vpOIDOf(id), "the object git names is the root")
+	} else {
+		vp_Assert(err != nil && oid == NullOID, "an unresolvable or malformed answer is an error")
+	}
+	vp_Reach("end")
+}
